@@ -50,6 +50,7 @@ import (
 	"strings"
 	"sync"
 	"sync/atomic"
+	"syscall"
 	"time"
 
 	"github.com/miekg/dns"
@@ -144,6 +145,7 @@ type sim struct {
 
 	fetchProbe       func() // oracle hook: runs while the DNSKEY query is served
 	preLive          string // live trust set while the DNSKEY query was being served ("none": no query)
+	replaced         string // files the last run replaced: t (tombstones), s (state), in that order, or -
 	lastRevokedDelta int64  // increments of the "revoked" lifecycle counter in the last run
 }
 
@@ -502,6 +504,18 @@ func plantDir(path string) {
 	}
 }
 
+// inode of a regular file (0: none).
+func inode(path string) uint64 {
+	fi, err := os.Lstat(path)
+	if err != nil || !fi.Mode().IsRegular() {
+		return 0
+	}
+	if st, ok := fi.Sys().(*syscall.Stat_t); ok {
+		return st.Ino
+	}
+	return 0
+}
+
 func isLoop(path string) bool {
 	fi, err := os.Lstat(path)
 	return err == nil && fi.Mode()&os.ModeSymlink != 0
@@ -537,6 +551,7 @@ func (s *sim) run(sp *runSpec) string {
 	s.normalise(r0)
 	stateSnap := snapFile(s.statePath())
 	tombSnap := snapFile(s.tombPath())
+	stateIno, tombIno := inode(s.statePath()), inode(s.tombPath())
 
 	if sp.fStateRd {
 		plantLoop(s.statePath())
@@ -575,6 +590,17 @@ func (s *sim) run(sp *runSpec) string {
 	cur.Store(nil)
 	s.lastRevokedDelta = after[6] - before[6]
 
+	// which files were REPLACED by this run (atomicGobWrite renames a new inode into place)
+	s.replaced = ""
+	if fi, err := os.Lstat(s.tombPath()); err == nil && fi.Mode().IsRegular() && inode(s.tombPath()) != tombIno {
+		s.replaced += "t"
+	}
+	if fi, err := os.Lstat(s.statePath()); err == nil && fi.Mode().IsRegular() && inode(s.statePath()) != stateIno {
+		s.replaced += "s"
+	}
+	if s.replaced == "" {
+		s.replaced = "-"
+	}
 	// remove the planted obstacles: a path that still carries one saw no
 	// replacement, so the previous content is what is on disk.
 	if isLoop(s.statePath()) || isDir(s.statePath()) {
@@ -858,7 +884,7 @@ func exec(op string) vlib.Res {
 		}
 		impl := S.obs()
 		if sp.crash < 0 {
-			impl = "res=" + outcome + " pre=" + S.preLive + " " + impl
+			impl = "res=" + outcome + " pre=" + S.preLive + " w=" + S.replaced + " " + impl
 		}
 		return vlib.Res{Impl: impl, Oracle: verdict, Tags: tags}
 	}
